@@ -39,7 +39,9 @@ type KnownFinding struct {
 	Obligation string `json:"obligation"`
 	What       string `json:"what"`
 	Witness    string `json:"witness"`
-	Commit     string `json:"commit,omitempty"`
+	Commit      string `json:"commit,omitempty"`
+	WitnessTest string `json:"witness_test,omitempty"`
+	WitnessPkg  string `json:"witness_pkg,omitempty"`
 }
 
 type Expected struct {
@@ -318,6 +320,7 @@ func checkMain(args []string) {
 		os.Exit(2)
 	}
 	t0 := time.Now()
+	os.RemoveAll(filepath.Join(root, "replay", pc.ID))
 	ro := runProperty(root, *repo, pc, *tier, seed, nil, false)
 	if *baseline {
 		if ro.undecided != "" {
